@@ -1,5 +1,5 @@
 From Coq Require Import String Permutation.
-Require Import Base Node Cbor CborProofs Varint Base64 Base64Proofs Container.
+Require Import Base Node Cbor CborProofs Varint Base64 Base64Proofs Container Generated.
 From Coq Require Import ZifyBool ZifyNat ZifyN.
 Local Open Scope N_scope.
 Ltac Zify.zify_post_hook ::= Z.div_mod_to_equations.
@@ -38,16 +38,20 @@ Proof. induction a; cbn; auto. Qed.
 Lemma firstn_app_len {A} (a b : list A) : firstn (length a) (a ++ b) = a.
 Proof. induction a; cbn; f_equal; auto. Qed.
 
+(* the cap read from the source stays far below what a ten-byte varint can say *)
+Lemma max_section_bound : max_section < 2 ^ 56.
+Proof. vm_compute. reflexivity. Qed.
+
 Theorem ld_read_write d rest : d <> [] -> N.of_nat (length d) <= max_section ->
   ld_read (ld_write d ++ rest) = Ok (Some (d, rest)).
 Proof.
   intros Hne Hmax. unfold ld_read, ld_write. rewrite <- app_assoc.
   destruct (to_uvarint (N.of_nat (length d)) ++ d ++ rest) eqn:E.
   { pose proof (to_uvarint_nonempty (N.of_nat (length d))). destruct (to_uvarint _); [congruence|discriminate]. }
-  rewrite <- E. unfold max_section in *.
+  rewrite <- E. pose proof max_section_bound as Hcap.
   rewrite go_read_to_uvarint by lia.
   destruct (N.eqb_spec (N.of_nat (length d)) 0); [destruct d; [congruence|cbn in *; lia]|].
-  destruct (N.ltb_spec 33554432 (N.of_nat (length d))); [lia|].
+  destruct (N.ltb_spec max_section (N.of_nat (length d))) as [Hbig|_]; [lia|].
   destruct (N.ltb_spec (N.of_nat (length (d ++ rest))) (N.of_nat (length d))); [rewrite app_length in *; lia|].
   rewrite Nat2N.id, firstn_app_len, skipn_app_len. reflexivity.
 Qed.
